@@ -311,3 +311,273 @@ def config_matrix(rng, n_local=2, n_remote=1, n_batch=2):
         for b in rng.sample(BATCHES, n_batch):
             out.append((c, b))
     return out
+
+
+# ------------------------------------------------------------------------------------------------
+# focused program families (one per property): templates with randomised parameters
+
+def _sinks(nodes, ordered=()):
+    return {n["id"]: {"kind": n["kind"], "ordered": n["id"] in ordered} for n in nodes if n["op"] == "sink"}
+
+
+def _src(rng, i, shape=None):
+    """A source with a data shape: skewed / single key / many keys / empty / range."""
+    shape = shape or rng.choice(["range", "range", "skew", "single", "many", "empty", "one"])
+    if shape == "range":
+        lo = rng.choice([0, 0, 5])
+        return {"id": i, "op": "src", "kind": "par_range", "lo": lo, "hi": lo + rng.choice([1, 7, 20, 45])}
+    if shape == "empty":
+        return rng.choice([{"id": i, "op": "src", "kind": "par_range", "lo": 3, "hi": 3},
+                           {"id": i, "op": "src", "kind": "iter", "data": []}])
+    if shape == "one":
+        return {"id": i, "op": "src", "kind": "iter", "data": [rng.randrange(0, 50)]}
+    n = rng.choice([5, 12, 30])
+    if shape == "skew":
+        data = [rng.choice([0, 0, 0, 0, 7, 14, 3]) * 1 + rng.choice([0, 21, 42]) for _ in range(n)]
+    elif shape == "single":
+        data = [rng.choice([4, 11, 18, 25]) for _ in range(n)]    # equal mod 7
+    else:
+        data = [rng.randrange(0, 200) for _ in range(n)]
+    return {"id": i, "op": "src", "kind": "iter", "data": data}
+
+
+def agg_programs(rng, n):
+    """C07: every aggregation API, on varied key distributions, inside short pipelines."""
+    out = []
+    kinds = ["fold", "reduce", "fold_assoc", "reduce_assoc", "gb+kfold", "gb+kreduce", "gb_fold", "gb_reduce",
+             "gb_sum", "gb_count", "gb_avg", "gb_min", "gb_max", "krich_map"]
+    for i in range(n):
+        kind = kinds[i % len(kinds)]
+        nodes = [_src(rng, "s")]
+        cur = "s"
+        if rng.random() < 0.5:
+            nodes.append({"id": "p", "op": rng.choice(["map", "shuffle"]), "f": rng.choice(MAPS), "in": [cur]})
+            cur = "p"
+        m = rng.choice([1, 2, 3, 5, 7])
+        agg = rng.choice(AGGS)
+        ragg = rng.choice(["sum", "max", "min"])
+        keyed = True
+        if kind in ("fold", "fold_assoc"):
+            nodes.append({"id": "a", "op": kind, "agg": agg, "in": [cur]}); keyed = False
+        elif kind in ("reduce", "reduce_assoc"):
+            nodes.append({"id": "a", "op": kind, "agg": ragg, "in": [cur]}); keyed = False
+        elif kind == "gb+kfold":
+            nodes += [{"id": "g", "op": "group_by", "m": m, "in": [cur]}, {"id": "a", "op": "kfold", "agg": agg, "in": ["g"]}]
+        elif kind == "gb+kreduce":
+            nodes += [{"id": "g", "op": "group_by", "m": m, "in": [cur]}, {"id": "a", "op": "kreduce", "agg": ragg, "in": ["g"]}]
+        elif kind == "krich_map":
+            # per-key running aggregate needs a defined per-key order: sequential producer
+            nodes = [{"id": "s", "op": "src", "kind": "iter", "data": [rng.randrange(0, 40) for _ in range(rng.choice([0, 6, 15]))]},
+                     {"id": "g", "op": "group_by", "m": m, "in": ["s"]},
+                     {"id": "a", "op": "krich_map", "agg": rng.choice(["sum", "max", "count"]), "in": ["g"]}]
+        elif kind in ("gb_fold",):
+            nodes.append({"id": "a", "op": kind, "m": m, "agg": agg, "in": [cur]})
+        elif kind == "gb_reduce":
+            nodes.append({"id": "a", "op": kind, "m": m, "agg": ragg, "in": [cur]})
+        else:
+            nodes.append({"id": "a", "op": kind, "m": m, "in": [cur]})
+        cur = "a"
+        if rng.random() < 0.3:
+            if keyed:
+                nodes.append({"id": "q", "op": "kmap", "f": rng.choice(MAPS), "in": [cur]})
+            else:
+                nodes.append({"id": "q", "op": "map", "f": rng.choice(MAPS), "in": [cur]})
+            cur = "q"
+        nodes.append({"id": "k", "op": "sink", "kind": rng.choice(["collect_vec", "collect", "collect_vec_all"]), "in": [cur]})
+        out.append({"name": f"agg{i}_{kind}", "prog": {"nodes": nodes}, "sinks": _sinks(nodes)})
+    return out
+
+
+def join_programs(rng, n):
+    """C08: every ship x local x variant, duplicate keys, one-sided keys, an empty side."""
+    out = []
+    combos = [(s, l, v) for s in ("hash", "bcast") for l in ("hash", "sortmerge")
+              for v in (("inner", "left", "outer") if s == "hash" else ("inner", "left"))]
+    for i in range(n):
+        ship, local, variant = combos[i % len(combos)]
+        shapes = rng.choice([("many", "many"), ("skew", "many"), ("range", "range"), ("empty", "range"),
+                             ("range", "empty"), ("single", "skew"), ("one", "many"), ("empty", "empty")])
+        nodes = [_src(rng, "l", shapes[0]), _src(rng, "r", shapes[1])]
+        a, b = "l", "r"
+        if rng.random() < 0.4:
+            nodes.append({"id": "lm", "op": rng.choice(["map", "shuffle"]), "f": rng.choice(MAPS), "in": ["l"]}); a = "lm"
+        if rng.random() < 0.4:
+            nodes.append({"id": "rm", "op": rng.choice(["map", "shuffle"]), "f": rng.choice(MAPS), "in": ["r"]}); b = "rm"
+        if i % 7 == 6:
+            # keyed-stream join
+            mk = rng.choice([2, 3, 5])
+            nodes += [{"id": "gl", "op": "group_by", "m": mk, "in": [a]}, {"id": "gr", "op": "group_by", "m": mk, "in": [b]},
+                      {"id": "j", "op": "kjoin", "variant": rng.choice(["inner", "outer"]), "in": ["gl", "gr"]}]
+        else:
+            nodes.append({"id": "j", "op": "join", "ship": ship, "local": local, "variant": variant,
+                          "ml": rng.choice([1, 2, 3, 5, 7]), "mr": rng.choice([1, 2, 3, 5, 7]), "in": [a, b]})
+        nodes.append({"id": "k", "op": "sink", "kind": "collect_vec", "in": ["j"]})
+        out.append({"name": f"join{i}_{ship}_{local}_{variant}", "prog": {"nodes": nodes}, "sinks": _sinks(nodes)})
+    return out
+
+
+def fan_programs(rng, n):
+    """C09: split / route / merge / zip combined with shuffles (diamonds), per-branch sinks."""
+    out = []
+    for i in range(n):
+        t = i % 6
+        nodes = []
+        ordered = set()
+        if t == 0:      # split n -> per branch sink
+            nb = rng.choice([1, 2, 3, 4])
+            nodes = [_src(rng, "s"), {"id": "sp", "op": "split", "n": nb, "in": ["s"]}]
+            for b in range(nb):
+                x = f"sp.{b}"
+                if rng.random() < 0.5:
+                    nodes.append({"id": f"m{b}", "op": rng.choice(["map", "shuffle", "filter"]), "f": rng.choice(MAPS),
+                                  "p": rng.choice(FILTERS), "in": [x]}); x = f"m{b}"
+                nodes.append({"id": f"k{b}", "op": "sink", "kind": "collect_vec", "in": [x]})
+        elif t == 1:    # route
+            preds = rng.sample(FILTERS + ["all", "none"], rng.choice([1, 2, 3, 4]))
+            nodes = [_src(rng, "s"), {"id": "rt", "op": "route", "preds": preds, "in": ["s"]}]
+            for b in range(len(preds)):
+                nodes.append({"id": f"k{b}", "op": "sink", "kind": "collect_vec", "in": [f"rt.{b}"]})
+        elif t == 2:    # diamond: split -> two different branches -> merge
+            nodes = [_src(rng, "s", "range"), {"id": "sp", "op": "split", "n": 2, "in": ["s"]},
+                     {"id": "a", "op": "map", "f": rng.choice(MAPS), "in": ["sp.0"]},
+                     {"id": "b0", "op": "shuffle", "in": ["sp.1"]},
+                     {"id": "b", "op": "flat_map", "g": rng.choice(FLATS), "in": ["b0"]},
+                     {"id": "a1", "op": "shuffle", "in": ["a"]},
+                     {"id": "mg", "op": "merge", "in": ["a1", "b"]},
+                     {"id": "k", "op": "sink", "kind": "collect_vec", "in": ["mg"]}]
+        elif t == 3:    # merge of differently shaped inputs (one possibly empty)
+            nodes = [_src(rng, "a", rng.choice(["range", "empty"])), _src(rng, "b", rng.choice(["range", "empty"])),
+                     {"id": "a1", "op": "shuffle", "in": ["a"]}, {"id": "b1", "op": "shuffle", "in": ["b"]},
+                     {"id": "mg", "op": "merge", "in": ["a1", "b1"]},
+                     {"id": "k", "op": "sink", "kind": rng.choice(["collect_vec", "collect_count"]), "in": ["mg"]}]
+        elif t == 4:    # zip of two sequential inputs: positional
+            la, lb = rng.choice([(0, 5), (8, 8), (12, 3), (1, 30), (40, 37)])
+            nodes = [{"id": "a", "op": "src", "kind": "iter", "data": [rng.randrange(0, 90) for _ in range(la)]},
+                     {"id": "b", "op": "src", "kind": "iter", "data": [rng.randrange(0, 90) for _ in range(lb)]},
+                     {"id": "am", "op": "map", "f": rng.choice(MAPS), "in": ["a"]},
+                     {"id": "z", "op": "zip", "in": ["am", "b"]},
+                     {"id": "k", "op": "sink", "kind": "collect_vec", "in": ["z"]}]
+            ordered = {"k"}
+        else:           # zip of parallel inputs: min(|a|,|b|) pairs -> count only
+            nodes = [_src(rng, "a", "range"), _src(rng, "b", "range"),
+                     {"id": "z", "op": "zip", "in": ["a", "b"]},
+                     {"id": "k", "op": "sink", "kind": "collect_count", "in": ["z"]}]
+        out.append({"name": f"fan{i}", "prog": {"nodes": nodes}, "sinks": _sinks(nodes, ordered)})
+    return out
+
+
+def _body(rng, kind, prefix, allow_amplify):
+    """A loop body over `$in`; returns (nodes, out ref)."""
+    nodes = []
+    cur = "$in"
+    for j in range(rng.choice([1, 2, 3, 4])):
+        opk = rng.choice(["map", "map_st", "map_st", "filter", "shuffle", "flat", "gbsum"])
+        nid = f"{prefix}b{j}"
+        if opk == "map":
+            nodes.append({"id": nid, "op": "map", "f": rng.choice(MAPS), "in": [cur]})
+        elif opk == "map_st":
+            nodes.append({"id": nid, "op": "map_st", "f": rng.choice(["add_state", "mix_state"]), "in": [cur]})
+        elif opk == "filter":
+            nodes.append({"id": nid, "op": "filter", "p": rng.choice(FILTERS), "in": [cur]})
+        elif opk == "shuffle":
+            nodes.append({"id": nid, "op": "shuffle", "in": [cur]})
+        elif opk == "flat":
+            g = rng.choice(FLATS) if allow_amplify else rng.choice(["drop_even", "one"])
+            nodes.append({"id": nid, "op": "flat_map", "g": g, "in": [cur]})
+        else:
+            # an aggregation inside the body: group_by_fold + drop_key
+            nodes.append({"id": nid + "g", "op": "gb_fold", "m": rng.choice([2, 3]), "agg": rng.choice(["sum", "max"]), "in": [cur]})
+            nodes.append({"id": nid, "op": "drop_key", "in": [nid + "g"]})
+        cur = nid
+    return nodes, cur
+
+
+def loop_programs(rng, n, nested=True, side=False):
+    """C10 / C11: replay and iterate with varied bodies, bounds and conditions; nested loops; side
+    inputs (an outside stream joined / merged / zipped with the loop stream inside the body)."""
+    out = []
+    for i in range(n):
+        kind = rng.choice(["replay", "replay", "iterate"])
+        fam = rng.choice([("sum", "sum"), ("max", "max"), ("count", "count")])
+        nodes = [{"id": "s", "op": "src", "kind": "par_range", "lo": 0, "hi": rng.choice([0, 1, 6, 15])}]
+        body, bout = _body(rng, kind, "L_", allow_amplify=(kind == "replay"))
+        loop = {"id": "L", "op": kind, "rounds": rng.choice([1, 2, 3, 5]), "init": rng.choice([0, 1, 7]),
+                "lfold": fam[0], "gfold": fam[1], "cond": rng.choice(["always", "always", "lt1000", "lt100"]),
+                "body": body, "out": bout, "in": ["s"]}
+        if side:
+            # side input: an outside stream combined with the loop stream inside the body
+            sz = rng.choice([0, 1, 4, 12])
+            how = rng.choice(["join", "join", "merge", "zip"])
+            if how == "zip":
+                # zip needs equally replicated inputs: both unlimited; count-insensitive use (gb count)
+                nodes.append({"id": "o", "op": "src", "kind": "par_range", "lo": 100, "hi": 100 + sz})
+                comb = [{"id": "L_z", "op": "merge", "in": [bout, "o"]}]
+            elif how == "merge":
+                nodes.append({"id": "o", "op": "src", "kind": "par_range", "lo": 100, "hi": 100 + sz})
+                comb = [{"id": "L_z", "op": "merge", "in": [bout, "o"]}]
+            else:
+                nodes.append({"id": "o", "op": "src", "kind": "par_range", "lo": 0, "hi": sz})
+                comb = [{"id": "L_z", "op": "join", "ship": "hash", "local": rng.choice(["hash", "sortmerge"]),
+                         "variant": rng.choice(["inner", "left"]), "ml": rng.choice([1, 2, 3]), "mr": rng.choice([1, 2, 3]),
+                         "in": [bout, "o"]}]
+            loop["body"] = body + comb
+            loop["out"] = "L_z"
+            loop["side"] = ["o"]
+            if kind == "iterate":
+                loop["op"] = "replay"   # keep feedback volume bounded with joins in the body
+                kind = "replay"
+        elif nested and i % 4 == 3:
+            # nested loop: the inner loop's final state is mapped back into the outer body stream
+            ibody, ibout = _body(rng, "replay", "L_I_", allow_amplify=False)
+            inner = {"id": "L_I", "op": "replay", "rounds": rng.choice([1, 2, 3]), "init": rng.choice([0, 2]),
+                     "lfold": "sum", "gfold": "sum", "cond": "always", "body": ibody, "out": ibout, "in": [bout]}
+            loop["body"] = body + [inner, {"id": "L_x", "op": "map", "f": "id", "in": ["L_I.state"]}]
+            loop["out"] = "L_x"
+            loop["op"] = "replay"
+            kind = "replay"
+        nodes.append(loop)
+        nodes.append({"id": "ks", "op": "sink", "kind": "collect_vec", "in": ["L.state"]})
+        if kind == "iterate":
+            nodes.append({"id": "ko", "op": "sink", "kind": "collect_vec", "in": ["L.out"]})
+        out.append({"name": f"loop{i}_{kind}", "prog": {"nodes": nodes}, "sinks": _sinks(nodes)})
+    return out
+
+
+def ordered_programs(rng, n, big=False):
+    """C16: single-replica chains of length 1..6; the result must be equal as a sequence."""
+    out = []
+    for i in range(n):
+        ln = rng.choice([0, 1, 17, 100, 1500] if not big else [0, 1, 100, 5000])
+        data = [rng.randrange(0, 1000) for _ in range(ln)]
+        nodes = [{"id": "s", "op": "src", "kind": "iter", "data": data}]
+        cur = "s"
+        for j in range(rng.randint(1, 6)):
+            opk = rng.choice(["map", "filter", "flat_map", "replicate", "replicate"])
+            nid = f"c{j}"
+            if opk == "map":
+                nodes.append({"id": nid, "op": "map", "f": rng.choice(MAPS), "in": [cur]})
+            elif opk == "filter":
+                nodes.append({"id": nid, "op": "filter", "p": rng.choice(FILTERS), "in": [cur]})
+            elif opk == "flat_map":
+                nodes.append({"id": nid, "op": "flat_map", "g": rng.choice(FLATS), "in": [cur]})
+            else:
+                nodes.append({"id": nid, "op": "replicate", "repl": "one", "in": [cur]})
+            cur = nid
+        nodes.append({"id": "k", "op": "sink", "kind": rng.choice(["collect_vec", "collect", "collect_channel"]), "in": [cur]})
+        out.append({"name": f"ord{i}", "prog": {"nodes": nodes}, "sinks": _sinks(nodes, {"k"})})
+    return out
+
+
+def window_programs(rng, n):
+    """C12 end-to-end: count windows on keyed pipelines with a sequential producer."""
+    out = []
+    for i in range(n):
+        ln = rng.choice([0, 1, 5, 13, 40])
+        N = rng.choice([1, 2, 3, 4, 5, 8]); S = rng.randint(1, N)
+        nodes = [{"id": "s", "op": "src", "kind": "iter", "data": [rng.randrange(0, 60) for _ in range(ln)]},
+                 {"id": "g", "op": rng.choice(["group_by", "key_by"]), "m": rng.choice([1, 2, 3, 5]), "in": ["s"]},
+                 {"id": "w", "op": "count_window", "n": N, "s": S, "exact": rng.random() < 0.5,
+                  "agg": rng.choice(WAGGS), "in": ["g"]},
+                 {"id": "k", "op": "sink", "kind": "collect_vec", "in": ["w"]}]
+        out.append({"name": f"win{i}", "prog": {"nodes": nodes}, "sinks": _sinks(nodes)})
+    return out
